@@ -46,6 +46,35 @@ func runC09(p *core.Prog, r *core.Report) {
 	// blob-typed entries included (shared with C08.R8)
 	c08R8(p, r, "C09.R9")
 	importOrderRule(p, r, "C09.R10")
+	c09R11(p, r)
+}
+
+// c09R11: the archive names the image by the tag it was exported under, and the export takes that
+// name from the reference it is given. SetDigest replaces the tag by the digest; a caller that wants
+// to pin what is exported adds the digest and keeps the tag.
+func c09R11(p *core.Prog, r *core.Report) {
+	const rule = "C09.R11"
+	r.Rule(rule, "the exported reference keeps its tag: no reference handed to RegClient.ImageExport comes out of Ref.SetDigest (which clears the tag; AddDigest keeps it)", 1)
+	n := 0
+	for _, fn := range p.ModFuncs {
+		if len(fn.Blocks) == 0 {
+			continue
+		}
+		lab := labeler{}
+		for _, c := range core.CallsTo(fn, func(f *types.Func) bool { return core.IsModMethod(f, ".", "RegClient", "ImageExport") }) {
+			n++
+			bad := false
+			for _, o := range core.Origins(core.CallArg(c, 2), core.SliceOpts{Helpers: core.Helpers(fn, 1)}) {
+				if o.Kind == core.OCall && o.Callee() != nil && o.Callee().Name() == "SetDigest" && core.IsModNamed(o.Call.Call.Args[0].Type(), "types/ref", "Ref") {
+					bad = true
+				}
+			}
+			r.Check(!bad, rule, p.FuncName(fn), lab.next("reference exported"), p.Pos(c.Pos()), "the reference handed to the export went through SetDigest, which drops the tag: the archive's index entry and RepoTags no longer name the image by the tag it was exported under")
+		}
+	}
+	if n == 0 {
+		r.MissingAnchor(rule, "calls of RegClient.ImageExport")
+	}
 }
 
 // importOrderRule: the import queues one push step per manifest and runs the queue backwards, so the
